@@ -104,6 +104,7 @@ func runSmall(c *core.Ctx) []core.Obligation {
 	smallFieldIndexBounded(c, b)
 	smallRewriterTableBounded(c, b)
 	smallWave22(c, b)
+	smallDataWordNotDereferenced(c, b)
 	smallStringOptionNull(c, b)
 	smallStringOptionMarshaler(c, b)
 	return b.out
@@ -6043,5 +6044,69 @@ func smallWave22(c *core.Ctx, b *ob) {
 				b.addP(props, core.Discharged, key, c.FuncPos(fn), "no result is looked up under the element type")
 			}
 		}
+	}
+}
+
+// S104 — the data word of an interface (or of a reflect.Value) is the value itself for
+// pointer-shaped types and a pointer to it for the others. json settles which one it is once per
+// type, with inlined(), when it compiles the codec (the inline adapters); the functions that run
+// per value hand the word on as it is. A per-value function that dereferences the word under a
+// test of its own (kind is Ptr or Map) misses the other pointer-shaped types: single-pointer
+// structs, one-element arrays, channels and functions with marshalers.
+func smallDataWordNotDereferenced(c *core.Ctx, b *ob) {
+	props := []string{"C14", "C01", "C06"}
+	key := "data-word:dereferenced-only-by-the-inline-adapters"
+	n, bad := 0, ""
+	for _, fn := range c.RepoFunctions() {
+		name := shortName(fn)
+		if fn.Blocks == nil || !strings.HasPrefix(name, "json.") {
+			continue
+		}
+		for _, blk := range fn.Blocks {
+			for _, in := range blk.Instrs {
+				ld, ok := in.(*ssa.UnOp)
+				if !ok || ld.Op != token.MUL {
+					continue
+				}
+				id, ok := fieldOfLoad(ld)
+				if !ok || id != "json.iface.ptr" {
+					continue
+				}
+				n++
+				// is the word itself used as the address of a pointer load?
+				for _, ref := range *ld.Referrers() {
+					refs := []ssa.Instruction{ref}
+					if phi, isPhi := ref.(*ssa.Phi); isPhi {
+						refs = append(refs, *phi.Referrers()...)
+					}
+					for _, r2 := range refs {
+						cv, isCv := r2.(*ssa.Convert)
+						if !isCv {
+							if ct, isCT := r2.(*ssa.ChangeType); isCT {
+								for _, r3 := range *ct.Referrers() {
+									if l2, isL := r3.(*ssa.UnOp); isL && l2.Op == token.MUL && l2.Type().String() == "unsafe.Pointer" {
+										bad = c.InstrPos(l2) + " (" + name + ")"
+									}
+								}
+							}
+							continue
+						}
+						for _, r3 := range *cv.Referrers() {
+							if l2, isL := r3.(*ssa.UnOp); isL && l2.Op == token.MUL && l2.Type().String() == "unsafe.Pointer" {
+								bad = c.InstrPos(l2) + " (" + name + ")"
+							}
+						}
+					}
+				}
+			}
+		}
+	}
+	switch {
+	case n == 0:
+		b.addP(props, core.Undecided, key, "-", "no read of an interface data word found in json")
+	case bad != "":
+		b.addP(props, core.Violation, key, bad, "a function that runs per value dereferences an interface data word itself (*(*unsafe.Pointer)(word)) instead of leaving the decision to the inline adapters selected by inlined() when the codec was compiled: a test made on the spot (kind is Ptr or Map) misses single-pointer structs and one-element arrays, whose word is the value too — map[string]struct{P *T} encodes the pointer's address as a number on that path, and a wrapped map makes it panic")
+	default:
+		b.addP(props, core.Discharged, key, "-", fmt.Sprintf("%d read(s) of an interface data word, none dereferenced on the spot", n))
 	}
 }
